@@ -236,11 +236,11 @@ _ADD4 = {
  "C07": " + damaged copies of lost datagrams put in front of the peer (success only for what it accepted)",
  "C08": " + <= / >= columns in the SeqNum table + the message window across disconnect()",
  "C09": " + the MTU configured while the connection objects exist (every second cell of the both-API grid)",
- "C05": " + the MTU configured while the connection objects exist",
+ "C05": " + the MTU configured while the connection objects exist + a scripted starvation history (open finding large-message-starved-by-retries)",
  "C10": " + connected clients that transmit their challenge response again + a connected peer that bundles a CLIENT_HELLO-typed message with application data (clause L_token)",
  "C11": " + block lists in the spellings a dual-stack transport reports, judged against the operator's own record; the lock-stepped world is total when the server loop dies",
- "C12": " + clause T_stayup (a CONNECTED client over a healthy link stays CONNECTED) + first answer slower than the client's message time-out with the client at its own frame rate + a server that sends state to every client on every tick",
- "C13": " + objects with container-annotated fields set to None / empty / filled",
+ "C12": " + clause T_stayup (a CONNECTED client over a healthy link stays CONNECTED) + first answer slower than the client's message time-out with the client at its own frame rate + a server that sends state to every client on every tick + clause T_clisilent with an application that polls its client more slowly than the server sends (one update() per frame)",
+ "C13": " + objects with container-annotated fields set to None / empty / filled + a subclass that adds a field to a Serializable base class",
  "C14": " (the observation loop stops after three watchdog hits)",
  "C15": " + a Set of nested objects",
  "C16": " + bindings compared exactly as reported",
@@ -251,4 +251,4 @@ for _k, _t in _ADD4.items():
     CHECKS[_k]["technique"] += _t
 NOTES = NOTES.replace("Extension checks X01..X05", "Extension checks X01..X11")
 NOTES += (" audit/ holds demonstration programs written by independent sub-agents that audited the unchanged tree against the property texts (DESIGN 7.6); "
-          "the defects among them that were repaired are the `fixed:` lines D22..D28 of KNOWN_FINDINGS.txt.")
+          "the defects among them that were repaired are the `fixed:` lines D22..D30 of KNOWN_FINDINGS.txt.")
